@@ -13,7 +13,7 @@ Fresh(k) == 1000 + nops * 50 + k                 \* ids never seen before (nops 
 TT(n) == [i \in 1..n |-> TRUE]
 NewView(idx) ==
   LET wv == [n \in Nets |-> IF Shape.shadow[n] = 0 THEN Fresh(n) ELSE Fresh(Shape.shadow[n])] IN
-  [idx |-> idx, mut |-> "None", hp |-> [h \in 1..H |-> h], arch |-> [n \in Nets |-> 1],
+  [idx |-> idx, mut |-> "None", hp |-> [h \in 1..H |-> h], arch |-> [n \in Nets |-> 1], acfg |-> [n \in Nets |-> 1],
    w |-> wv, opt |-> [o \in Opts |-> 7], coherent |-> TT(M), lrok |-> TT(M),
    steps |-> 1, scores |-> 1, fitness |-> 1, aux |-> 1, greedy |-> Fresh(20)]
 GreedyOf(wp, ar, dflt) == IF \E m \in actMemo : m.w = wp /\ m.arch = ar
@@ -27,11 +27,11 @@ IdealLearn(p, b) ==
 Resync(v) == [v EXCEPT !.w = [n \in Nets |-> IF Shape.shadow[n] # 0 THEN v.w[Shape.shadow[n]] ELSE v.w[n]]]
 IdealMutate(p, k, h) ==
   CASE k = "none"  -> [p EXCEPT !.mut = "None"]
-    [] k = "arch"  -> Resync([p EXCEPT !.mut = "add_node", !.arch = [n \in Nets |-> Fresh(30)],
+    [] k = "arch"  -> Resync([p EXCEPT !.mut = "add_node", !.arch = [n \in Nets |-> Fresh(30)], !.acfg = [n \in Nets |-> Fresh(32)],
                                        !.w = [n \in Nets |-> Fresh(n)], !.opt = [o \in Opts |-> 7], !.greedy = Fresh(22)])
     [] k = "param" -> Resync([p EXCEPT !.mut = "param", !.w = [p.w EXCEPT ![Shape.policy] = Fresh(1)],
                                        !.opt = [o \in Opts |-> 7], !.greedy = Fresh(22)])
-    [] k = "act"   -> Resync([p EXCEPT !.mut = "act", !.arch = [n \in Nets |-> Fresh(31)], !.opt = [o \in Opts |-> 7], !.greedy = Fresh(22)])
+    [] k = "act"   -> Resync([p EXCEPT !.mut = "act", !.arch = [n \in Nets |-> Fresh(31)], !.acfg = [n \in Nets |-> Fresh(33)], !.opt = [o \in Opts |-> 7], !.greedy = Fresh(22)])
     [] k = "hp"    -> Resync([p EXCEPT !.mut = Shape.hpnames[h], !.hp = [p.hp EXCEPT ![h] = Fresh(40)]])
 NewCells == {Fresh(1), Fresh(2)}
 FreeIdx == CHOOSE i \in 0..(NSlots * 4) : \A s \in Live : slots[s].idx # i
